@@ -27,7 +27,8 @@ fn pop_strategy(c12: bool) -> BoxedStrategy<POp> {
     let nt = crate::types::ntypes() as u8;
     let size = prop_oneof![4 => 1u16..=24, 4 => 24u16..=72, 1 => 72u16..=200, 1 => Just(0u16)];
     let mut v: Vec<(u32, BoxedStrategy<POp>)> = vec![
-        (40, (size.clone(), 0u8..4).prop_map(|(n, payload)| POp::AllocBytes { n, payload }).boxed()),
+        (28, (size.clone(), 0u8..4).prop_map(|(n, payload)| POp::AllocBytes { n, payload }).boxed()),
+        (16, (1u8..=8, -9i8..=9, 0u8..4).prop_map(|(num, d, payload)| POp::AllocRel { num, d, payload }).boxed()),
         (18, (0..nt, 0u8..4).prop_map(|(ty, payload)| POp::AllocTyped { ty, payload }).boxed()),
         (10, (0..nt, 0u16..40, 0u8..4).prop_map(|(ty, n, payload)| POp::AllocAligned { ty, n, payload }).boxed()),
         (34, any::<u16>().prop_map(|h| POp::Drop { h }).boxed()),
@@ -141,14 +142,14 @@ macro_rules! engb_prop {
     };
 }
 
-engb_prop!(C02, "C02", ALL_FL, false, false, 24_000, 1_500_000,
+engb_prop!(C02, "C02", ALL_FL, false, false, 160_000, 3_000_000,
     "Engine B: 2..3 (thorough 4) threads, each with its own clone of one sync::Arena and a generated program (alloc_bytes / alloc::<T> / alloc_aligned_bytes::<T> / drop / discard_freelist, allocations may be kept forever) run under a generated schedule (uniform choice bytes, bursty runs, or forced pre-emption of a thread right after its mark CAS) at the granularity of the arena's atomic accesses, from a free-list shape built by a generated pre-history (blocks, fill to exhaustion, free a subset); payloads include forged node words. Oracle: at every alloc return the range is inside the data area and disjoint from every live range of every thread; every arena write event (atomic or zeroing) must miss every live range; bytes verified before each release and at the end. Cases ending in a C07 stall are discarded here. Non-trivial = at least two threads operated on free-list nodes and at least one CAS failed (the threads interfered)",
     |r| r.freelist_threads >= 2 && r.cas_failures >= 1);
 
-engb_prop!(C07, "C07", LIST_FL, false, false, 24_000, 1_500_000,
+engb_prop!(C07, "C07", LIST_FL, false, false, 64_000, 2_000_000,
     "Engine B programs (as C02, Optimistic and Pessimistic only) in which threads keep allocations forever or finish early, under uniform, bursty and mark-targeted schedules with a fair round-robin fallback. Oracle (bounded safety surrogate for the liveness statement): per thread, the number of consecutive scheduling points during which no thread changed any word; a thread is stalled above L = 8*(nodes+ops+2)*max_retries+64; violation iff every unfinished thread is stalled (the state can no longer change, so no call can return). A single operation exceeding 100*L steps while others still write is counted as inconclusive, not as a violation. Non-trivial = some thread observed a marked node or had a CAS fail",
     |r| r.saw_marked || r.cas_failures >= 1);
 
-engb_prop!(C12, "C12", ALL_FL, true, true, 16_000, 1_000_000,
+engb_prop!(C12, "C12", ALL_FL, true, true, 48_000, 1_500_000,
     "Engine B programs extended with owned buffers created on one thread and sent to / dropped on another (harness mailbox carrying a vector clock), arena clones created and dropped by threads. A FastTrack-style detector is driven by the hook's event stream with the orderings the code actually passes: release clocks per atomic location (store Release sets, relaxed store clears, RMW joins and continues the release sequence), acquire on loads / failed CAS with an acquiring ordering; per-byte shadow of the last write and last reads for the owners' plain accesses, the arena's zeroing, the arena's atomic accesses inside arena memory and the final release of the backing memory. Race = two accesses to a common byte by different threads, at least one a write, at least one non-atomic, unordered. The original arena value is moved into thread 0 and the main thread keeps none, so the backing memory is released by whichever thread drops the last value, under the scheduler, and that release is checked as a plain write to every byte. Non-trivial = a byte range changed owner thread at least once, or the last arena value was dropped by a thread other than the creator's",
     |r| r.owner_changes >= 1 || r.classes.contains("last-drop-on-non-creator-thread"));
